@@ -2,9 +2,8 @@
   CwMt.Model.Rules — two decision rules of /repo/src/wasm.rs as tables.
 
   `ReplyArm` is one arm of `execute_submsg`'s case distinction on the sub-message result: the `reply_on` variants for
-  which `reply` is called, the fields of the `Reply { … }` literal it builds, and what is done to the sub-message's own
-  response with and without a reply (local variable names are canonicalised: `$r` is the variable bound by the arm's pattern, `$v`
-  the let-bound reply result). The table of the current sources is regenerated on every run
+  which `reply` is called (sorted) and the fields of the `Reply { … }` literal it builds (local variable names are canonicalised:
+  `$r` is the variable bound by the arm's pattern). The table of the current sources is regenerated on every run
   (checklib/tr_rules.py → CwMt/Gen/Rules.lean); `expectedReplyArms` / `expectedVerifySteps` are what
   `Engine.executeSubmsg` and `attrOk` / `eventOk` / `responseOk` transcribe.
 -/
@@ -14,37 +13,29 @@ structure ReplyArm where
   outcome : String
   modes : List String
   fields : List (String × String)
-  thenDo : List String
-  otherwise : List String
   deriving DecidableEq, Repr
 
 def expectedReplyArms : List ReplyArm := [
-  -- the sub-message succeeded: reply with its own events and data; the reply's data replaces, its events are appended;
-  -- without a reply the sub-message's data is dropped
+  -- the sub-message succeeded: reply with its own events and data
   { outcome := "Ok", modes := ["Always", "Success"],
     fields := [("id", "id"), ("payload", "payload"), ("gas_used", "0"), ("result", "SubMsgResult::Ok"),
-               ("result.events", "$r.events.clone()"), ("result.data", "$r.data.clone()")],
-    thenDo := ["let $v=self.reply(api,router,storage,block,contract,reply)?", "$r.data=$v.data",
-               "$r.events.extend_from_slice(&$v.events)"],
-    otherwise := ["$r.data=None"] },
-  -- it failed: the reply's result is the result; without a reply the error propagates
+               ("result.events", "$r.events.clone()"), ("result.data", "$r.data.clone()")] },
+  -- it failed: reply with the error
   { outcome := "Err", modes := ["Always", "Error"],
-    fields := [("id", "id"), ("payload", "payload"), ("gas_used", "0"), ("result", "SubMsgResult::Err")],
-    thenDo := ["self.reply(api,router,storage,block,contract,reply)"],
-    otherwise := ["Err($r)"] }
+    fields := [("id", "id"), ("payload", "payload"), ("gas_used", "0"), ("result", "SubMsgResult::Err")] }
 ]
 
 def expectedVerifySteps : List (String × String × String) := [
-  ("verify_attributes", "for attr", "attributes"),
-  ("verify_attributes", "let key", "attr.key.trim()"),
-  ("verify_attributes", "let val", "attr.value.trim()"),
-  ("verify_attributes", "bail-if", "key.is_empty()"),
-  ("verify_attributes", "bail-if", "key.starts_with('_')"),
+  ("verify_attributes", "for $attr", "attributes"),
+  ("verify_attributes", "let $key", "$attr.key.trim()"),
+  ("verify_attributes", "let $val", "$attr.value.trim()"),
+  ("verify_attributes", "bail-if", "$key.is_empty()"),
+  ("verify_attributes", "bail-if", "$key.starts_with('_')"),
   ("verify_response", "call", "Self::verify_attributes(&response.attributes)"),
-  ("verify_response", "for event", "&response.events"),
-  ("verify_response", "call", "Self::verify_attributes(&event.attributes)"),
-  ("verify_response", "let ty", "event.ty.trim()"),
-  ("verify_response", "bail-if", "ty.len()<2")
+  ("verify_response", "for $event", "response.events"),
+  ("verify_response", "call", "Self::verify_attributes(&$event.attributes)"),
+  ("verify_response", "let $ty", "$event.ty.trim()"),
+  ("verify_response", "bail-if", "$ty.len()<2")
 ]
 
 /-- the variant set of the arm for `outcome` (empty when the arm is missing) -/
